@@ -1,11 +1,17 @@
 # run plan + floors for C05 (loaded by checkcfg.py; helpers e1/e2 are in scope)
 # packet-level half (engine E1): validate_message(try_parse(bytes), is_ebgp).
-# The end-to-end half (rx_msg -> RIB) is a separate E2 module, not part of this plan yet.
+# end-to-end half (engine E2, harness/daemon/c05.rs): the same corrupted UPDATEs through the daemon's real
+# receive path (socket: accept_connection + PeerSession::run over loopback TCP; direct: try_parse ->
+# validate_message -> is_as_loop -> rx_msg on a new_for_test session), RIB read back with collect_paths.
 CFG = dict(
     level="exploration",
     rule="case = (session kind [eBGP/iBGP/confed x 2-/4-octet AS x ADD-PATH], valid UPDATE template, recorded RFC 7606 fault list) "
          "-> corrupted UPDATE through PeerCodec::try_parse + validate_message; non-trivial = at least one fault that is not a mere "
-         "reserved-bit / consistent-extended-length variation and at least one announced prefix; distinct by hash of (session kind, corrupted bytes)",
+         "reserved-bit / consistent-extended-length variation and at least one announced prefix; distinct by hash of (session kind, corrupted bytes). "
+         "e2e case = (drive mode socket|direct, session kind, template, fault list, announced prefixes held from an earlier valid UPDATE or not) -> "
+         "batch [cleanup, pre-install of the withdrawn (and optionally the announced) prefixes, corrupted UPDATE, sentinel UPDATE] on a real session, "
+         "Adj-RIB-In read back at quiescence (sentinel visible / session task ended); same non-triviality rule; distinct by hash of "
+         "(mode, session kind, held-before, corrupted bytes)",
     monitors=[
         "never-installs: no Reach for any announced prefix when a recorded fault (or an independent TLV walk of the bytes) demands treat-as-withdraw",
         "treat-as-withdraw: such prefixes, when locatable, come out as Unreach",
@@ -14,6 +20,14 @@ CFG = dict(
         "reset: Err(Notification) only when the engine damaged a length field / the attribute block / an MP attribute / NLRI octets",
         "ebgp-filter: no LOCAL_PREF / ORIGINATOR_ID / CLUSTER_LIST in any Reach when is_ebgp",
         "no panic (debug and release arithmetic)",
+        "e2e never-installs: no prefix of a must-withdraw UPDATE is in the Adj-RIB-In with attributes of that UPDATE (also after a reset)",
+        "e2e treat-as-withdraw: a locatable prefix held from an earlier valid UPDATE is GONE after the faulty UPDATE",
+        "e2e discard: a stored path does not carry the discardable-faulty attribute (iBGP LOCAL_PREF: not the received value)",
+        "e2e withdrawals-survive: prefixes withdrawn by the same message (pre-installed in the same batch) are gone; also judged for the fault-free template",
+        "e2e reset: NOTIFICATION / close only when the engine damaged framing / TLV chain / an MP attribute / NLRI octets",
+        "e2e ebgp-filter: no stored path from an external peer carries LOCAL_PREF / ORIGINATOR_ID / CLUSTER_LIST",
+        "e2e update-before-established: an UPDATE between OPEN and KEEPALIVE leaves nothing in the RIB",
+        "e2e no panic in the session task / rx_msg (JoinHandle error)",
     ],
     assumptions=[
         "all nine MP families plus IPv4 unicast are negotiated on the session; message <= 4096 octets",
@@ -23,6 +37,12 @@ CFG = dict(
         "when a changed length field still lets a plain TLV walk end exactly at the end of the attribute block, only panics, resets-with-reason and legacy withdrawals are judged",
         "a faulty or duplicated MP_REACH_NLRI / MP_UNREACH_NLRI may reset the session; its own NLRI are then not required to appear as withdrawals",
         "semantic NEXT_HOP values (0.0.0.0, multicast), AIGP inner TLVs and mismatched AS-number width inside AS_PATH are not generated",
+        "e2e: one neighbour per test Global (eBGP AS 65002 / iBGP AS 65001 / confederation member 64701 of confederation 65010), hold time 3600 s both sides, "
+        "no import policy, no prefix limit, no GR; inbound loop rules (AS loop, ORIGINATOR_ID, CLUSTER_LIST) never trigger and are C09's",
+        "e2e: a held route that stays untouched under discardable-only faults, routes under keys the template does not have (mis-parsed octets), "
+        "and what is left of a peer after a reset (beyond 'not the faulty UPDATE's attributes') are counted, not judged",
+        "e2e: when the harness's own valid withdraw-everything UPDATE does not empty the Adj-RIB-In (control), every case of that template gets a session of its own",
+        "e2e runs the debug profile only (overflow checks on)",
     ],
     floor=dict(
         evaluations=100000, nontrivial=25000,
@@ -43,9 +63,30 @@ CFG = dict(
             "scenario:mixed": 9000, "scenario:v4+wd": 9000, "scenario:mp+unreach": 9000,
             "family:V6": 4000, "family:Vpn4": 4000, "family:Vpn6": 4000, "family:Evpn": 4000,
             "family:Lab4": 4000, "family:Lab6": 4000, "family:Rtc": 4000, "family:V4Mc": 4000, "family:V4Mp": 3000,
+            # end-to-end half (socket + direct shard, ~1/5 of what seed 1 shows at quick tier)
+            "e2e:cases:socket": 800, "e2e:cases:direct": 2200, "e2e:control:ok:socket": 280, "e2e:control:ok:direct": 750,
+            "e2e:clause:never-installs:checked": 1600, "e2e:clause:treat-as-withdraw:held-route-gone": 1700,
+            "e2e:clause:discard:kept": 220, "e2e:clause:discard:withdrawn": 140,
+            "e2e:clause:withdrawals:legacy-checked": 950, "e2e:clause:withdrawals:mp-checked": 590,
+            "e2e:control:withdrawals-checked": 800,
+            "e2e:clause:ebgp-filter:stored-with-ibgp-attrs-in-input": 100,
+            "e2e:clause:reset:no-reset-needed-and-none": 2000, "e2e:outcome:reset-allowed": 570, "e2e:outcome:reset:notification": 570,
+            "e2e:early-update:checked:socket": 15, "e2e:early-update:checked:direct": 40,
+            "e2e:announced-prefixes-held-before": 1500,
+            "e2e:session:Ebgp": 1200, "e2e:session:Ibgp": 1200, "e2e:session:Confed": 600,
+            "e2e:session:as2": 1200, "e2e:session:as4": 1800, "e2e:session:addpath": 780,
+            "e2e:family:V6": 200, "e2e:family:Vpn4": 200, "e2e:family:Vpn6": 200, "e2e:family:Evpn": 200, "e2e:family:Lab4": 200,
+            "e2e:family:Lab6": 200, "e2e:family:Rtc": 200, "e2e:family:V4Mc": 200, "e2e:family:V4Mp": 150,
+            "e2e:fault:flags": 900, "e2e:fault:len": 850, "e2e:fault:omit": 320, "e2e:fault:dup": 270, "e2e:fault:unknown-wk": 400,
+            "e2e:fault:attrlen": 250, "e2e:fault:lenfield": 290, "e2e:fault:seg-zero": 160, "e2e:fault:value": 160,
+            "e2e:faults:2": 800, "e2e:faults:3": 300,
         }),
-    quick=[e1("all", "c05", "debug", 1, 40), e1("all", "c05", "release", 1, 40)],
+    quick=[e1("all", "c05", "debug", 1, 40), e1("all", "c05", "release", 1, 40),
+           e2("e2e-sock", "event::verif::c05::run", 1, 30, mode="socket"),
+           e2("e2e-direct", "event::verif::c05::run", 1, 30, mode="direct")],
     thorough=[e1("dbg", "c05", "debug", 8, 200),
               dict(e1("rel", "c05", "release", 8, 200), seed_offset=100),
-              dict(e1("miri", "c05", "debug", 2, 120, flavor="miri", scale=0.001), seed_offset=200)],
+              dict(e1("miri", "c05", "debug", 2, 120, flavor="miri", scale=0.001), seed_offset=200),
+              dict(e2("e2e-sock", "event::verif::c05::run", 4, 150, mode="socket"), seed_offset=300),
+              dict(e2("e2e-direct", "event::verif::c05::run", 4, 150, mode="direct"), seed_offset=400)],
 )
